@@ -56,7 +56,7 @@ def judge_cases(run, cases, shrink_budget):
 def main(tier, seed):
     run = core.Run("C01", tier, seed, "translation_validation")
     core.setup_impl_import()
-    ass = core.standard_proof_phase(run, "C01", lambda: (gen.gen_ops(), gen.gen_forrange()), "PV.Props.C01", extra_targets=["theories/Valid/Diff.vo"])
+    ass = core.standard_proof_phase(run, "C01", lambda: (gen.gen_ops(), gen.gen_forrange(), gen.gen_iftest()), "PV.Props.C01", extra_targets=["theories/Valid/Diff.vo"])
     rng = run.rng
     n = 70 if tier == "quick" else 1500
     from .. import idioms
